@@ -125,6 +125,12 @@ def strategy_(draw):
     if scalar_states and tpl["method"]["cls"] != "DC" and tpl["method"].get("intg") == "rk" and tpl.get("der") and draw(st.integers(0, 2)) == 0:
         xl = gen.leaves_of(scalar_states)[0]
         tpl["constraints"].append({"grid": "inf", "lhs": [["-", xl, ["inert", ["at_t0", xl]]]], "rel": "<=", "rhs": [E.C(draw(st.sampled_from([0.5, 1.0])))]})
+    if draw(st.booleans()):
+        # constraints of three kinds on the template (control grid, boundary, integrator grid): the clone carries each on its own grid
+        xl_ = gen.leaves_of(plain)[0]
+        tpl["constraints"] += [{"lhs": [xl_], "rel": "<=", "rhs": [E.C(8.0)], "grid": None, "include_first": True, "include_last": True},
+                               {"lhs": [["at_t0", xl_]], "rel": ">=", "rhs": [E.C(-7.0)], "grid": None},
+                               {"lhs": [["*", E.C(2.0), xl_]], "rel": ">=", "rhs": [E.C(-18.0)], "grid": "integrator", "include_first": True, "include_last": True}]
     xs = [d for d in tpl["states"] if not d.get("quad") and d["cols"] == 1]
     if xs and tpl["method"]["cls"] != "DC" and draw(st.booleans()):
         tpl["initial"] = [[xs[0]["name"], ["num", draw(gen.small())]]]
